@@ -33,6 +33,9 @@ type Run struct {
 	Tape *Tape
 	Dir  string // scratch directory (tmpfs)
 
+	bigDir     string // disk-backed scratch directory, if UseDiskScratch was called
+	SectorSize uint32 // journal sector size PagerSim connections report (0: 512)
+
 	Cfg    map[string]any   // swarm configuration, recorded for evidence/replay
 	Stats  map[string]int64 // fault/probe/step counters
 	States map[string]struct{}
@@ -63,6 +66,22 @@ func newRun(prop, tier string, seed int64, tape *Tape, dir string) *Run {
 		Cfg: map[string]any{}, Stats: map[string]int64{}, States: map[string]struct{}{},
 		seqHash: 1469598103934665603,
 	}
+}
+
+// UseDiskScratch moves the run's scratch directory from tmpfs to a disk-backed
+// directory; for the few runs whose files are gigabytes (the lock page at 1 GiB),
+// so that sixteen workers doing it at once do not exhaust memory. Must be called
+// before the first node is created. The directory is removed when the run ends.
+func (r *Run) UseDiskScratch() {
+	base := os.Getenv("SIM_BIG_SCRATCH_ROOT")
+	if base == "" {
+		base = filepath.Join("/var/tmp", fmt.Sprintf("verifsim-big-%d", os.Getpid()))
+	}
+	d := filepath.Join(base, filepath.Base(r.Dir))
+	if err := os.MkdirAll(d, 0o777); err != nil {
+		return
+	}
+	r.bigDir, r.Dir = d, d
 }
 
 // Thorough reports whether the run belongs to the thorough tier.
